@@ -154,7 +154,7 @@ fn write_subword_fn<W: Write>(
                     set literal_matched 1
                     break
                 end
-                if test $mode != matches; and string match --quiet -- "$subword*" $literal
+                if test $mode != matches; and contains -- "$literal_id" $inputs; and string match --quiet -- "$subword*" $literal
                     set stop_matching 1
                     break
                 end
